@@ -65,6 +65,50 @@ CHECKS = {
          'functional_extensionality_dep, classic). arctan2/cos/sin are libm (cos/sin of reported angles taken from '
          'python math). PARTIAL: left-inverse direction of build_fit_matrix not proved (measured).',
          'DESIGN.md section 6 (C10)'),
+ 'C11': ('Coq proof about the SPECIFICATION matcher (equals ground truth under unambiguity, partial bijection, indices '
+         'in range, no repeats, row-order independent; combined with the half-bin theorem of C12) + correspondence '
+         'of XYXYMatch / match2ref pair sets with it, evaluated in Coq',
+         'Machine-checked theorems about the specification matcher `true_pairs`; each run feeds well-separated '
+         'fields (extras 0-60 %, row permutations, use2dhist on/off, xoffset/yoffset, pixel scales 0.01..10) '
+         'through XYXYMatch.__call__ and WCSGroupCatalog.match2ref and compares the SET of returned pairs with the '
+         'specification inside Coq; index ranges, order of the two arrays, repeats are checked on the implementation.',
+         'PARTIAL: the matcher itself (stsci.stimage.xyxymatch, C code) is external - the theorem is about the '
+         'specification matcher, the glue is tied by correspondence. Rounding outside the theorems.',
+         'DESIGN.md section 6 (C12/C11)'),
+ 'C12': ('Coq proof (half-bin theorem for every pscale/searchrad; no pair in the search box => (0,0); peak locator '
+         'inside histogram and fit box with status in the vocabulary for EVERY coefficient vector / histogram / mask '
+         '/ box size; exact vertex) + correspondence of _xy_2dhist, _estimate_2dhist_shift and _find_peak in Coq',
+         'Machine-checked theorems about executable models of the histogram binning, the bin->offset conversion '
+         '(after fix F3, with a refutation witness for the old one) and the whole control flow of _find_peak with the '
+         'least-squares coefficients as an arbitrary oracle; the LSQ solution used for execution is computed in Coq '
+         'by the proved Gauss-Jordan inverse. Each run compares the integer histogram, the estimate and _find_peak '
+         'triples (exhaustive over small histograms in the thorough tier) with the model inside Coq.',
+         'The search region of the code is the Chebyshev box of half-width searchrad + pscale/2 (outermost bins), '
+         'so "no pair within the search radius" is read as "no pair in the search box". numpy.linalg.lstsq, KDTree '
+         'are external. Cases within 1e-8 bins of a bin edge are discarded (counted).',
+         'DESIGN.md section 6 (C12/C11)'),
+ 'C13': ('Coq proof (align_wcs as a state machine over arbitrary matcher/fit/ordering oracles: status trichotomy, one '
+         'REFERENCE iff no refcat, group members equal, corrected exactly once iff SUCCESS, raise => nothing '
+         'changed, NotEnoughCatalogs iff too few non-empty groups) + correspondence of scripted scenarios in Coq',
+         'Machine-checked theorems for every input list, option vector and oracle (incl. fit-raises outcomes after '
+         'fix F17 and the unconditional fitgeom check after F16), refutation witnesses for F8, F16, F17. Each run '
+         'drives the real align_wcs through scenarios (1..5 correctors, group-id assignments, good/junk/empty/'
+         'coincident catalogs, refcat none/table/corrector, expand x enforce x minobj x fitgeom, scripted matcher, '
+         'counting correctors) and compares statuses, correction counts, exception class with the model in Coq; '
+         'sky grids of REFERENCE/FAILED inputs must be bit-identical.',
+         'Known findings K13a (match=None length mismatch raises mid-run) and K13c (singular fitted matrix makes '
+         'set_correction raise mid-run). Only FITS-WCS correctors are driven. Trusted: Coq kernel, python harness.',
+         'DESIGN.md section 6 (C13/C14)'),
+ 'C14': ('Coq proof (reference-catalog growth: original rows an unchanged prefix at every step, fresh consecutive ids, '
+         'only unmatched rows of SUCCESS or zero-overlap groups, each once, never without expand_refcat) + '
+         'correspondence in Coq + measured sky agreement of real-matcher mosaics',
+         'Machine-checked loop-invariant theorems for every input and oracle, refutation witness for F5. Each run '
+         'compares number / ids / order / provenance of returned catalog rows of scripted scenarios with the model '
+         'in Coq, checks original rows bit-identical, and aligns synthetic overlapping mosaics with the real '
+         'XYXYMatch measuring that common sources agree on the sky (<= 1e-6 arcsec, measured max 5.7e-8).',
+         'PARTIAL: the numerical sky agreement is measured, not proved (only the triangle-inequality lemma). '
+         'Trusted: Coq kernel, python harness, astropy/wcslib.',
+         'DESIGN.md section 6 (C13/C14)'),
  'C15': ('Coq proof (arg-max pair, reference choice, true area, exact removal, sorted remainder, next image, grouping '
          'order; all list lengths) + correspondence in Coq on every permutation of generated footprint sets',
          'Machine-checked theorems about executable models of _max_overlap_pair, _max_overlap_image and the '
